@@ -1,4 +1,3 @@
-\* weights <3,1,1,1> (n=6,f=1,Q=5,S=3); faulty validator 2 leads view 1
 CONSTANTS
   Validators = {1,2,3,4}
   Weight <- W3111
@@ -10,6 +9,7 @@ CONSTANTS
   MaxView = 2
   ViewCap = 2
   HonestPayloads <- Alternating
+  EnableLeaderNV = FALSE
   MaxCrash = 1
   MaxBlocks = 2
 INIT InitView1
